@@ -1,3 +1,4 @@
 import QsGen.Position
 import QsGen.Kernels
 import QsGen.Plan
+import QsGen.Handler
